@@ -308,33 +308,3 @@ mod proofs {
     tr_harness!(trivial_ysep_difference_f32, f32, 3, 1);
     tr_harness!(trivial_xsep_union_f32, f32, 2, 2);
 }
-
-#[cfg(kani)]
-mod probe {
-    use super::*;
-    use super::super::order::orient2d_unreachable;
-
-    // cost probes (not registered anywhere)
-    #[kani::proof]
-    #[kani::unwind(6)]
-    fn probe_construct_only() {
-        let s = &mut KaniSrc;
-        let a = [pt::<f64, _>(s), pt::<f64, _>(s), pt::<f64, _>(s)];
-        let pa = Polygon::new(ring(a), vec![]);
-        let ma: MultiPolygon<f64> = MultiPolygon(vec![pa]);
-        assert!(ma.0.len() == 1);
-        std::mem::forget(ma);
-    }
-
-    #[kani::proof]
-    #[kani::unwind(6)]
-    fn probe_clone_only() {
-        let s = &mut KaniSrc;
-        let a = [pt::<f64, _>(s), pt::<f64, _>(s), pt::<f64, _>(s)];
-        let pa = Polygon::new(ring(a), vec![]);
-        let v = vec![pa];
-        let r: MultiPolygon<f64> = MultiPolygon(Vec::from(v.as_slice()));
-        assert!(r.0.len() == 1 && r.0[0].exterior().0[1] == a[1]);
-        std::mem::forget((r, v));
-    }
-}
